@@ -14,6 +14,11 @@ from .C01 import _alpha
 
 S_ = ("self",)
 CMP = ("g", "Cmp")
+from framelint.canon import canon_function as _canon_function_expanded
+
+def canon_function(fi, model=None, opts=None, expand=True):
+    return _canon_function_expanded(fi, model, opts, expand=expand)
+
 
 
 def cmp_(n):
@@ -151,15 +156,15 @@ def r2(ctx: Ctx) -> None:
                        lineno=f.node.lineno)
     # anchor for north: y = trunk.y + trunk.h/2 + h/2 ; trunk.x - trunk.w/2 + w/2 <= x <= trunk.x + trunk.w/2 - w/2
     f, c = b["north"]
-    eqs = _equations(c)
-    raw = canon_function(f, ctx.model)
+    raw = canon_function(f, ctx.model, expand=False)
+    eqs = _equations(raw)
     dfs = single_defs(raw)
     xv, yv, wv, hv = [deref(v, dfs) for v in (raw[-1][1][1] if raw[-1][0] == "ret" and raw[-1][1][0] == "tuple" else (None,) * 4)]
-    hlf = [v for v, e in dfs.items() if e[0] == "c" and e[1] == ("g", "ExpressionTree") and len(e[2]) == 2 and e[2][1] == ("k", "num", (1, 2))]
+    hlf = [v for v, e in single_defs(raw, False).items() if e[0] == "c" and e[1] == ("g", "ExpressionTree") and len(e[2]) == 2 and e[2][1] == ("k", "num", (1, 2))]
     ctx.site(f.where, "north: y == trunk top + h/2; x extent within the trunk's")
     ok = False
     if len(hlf) == 1 and xv is not None:
-        H = deref(hlf[0], dfs)
+        H = hlf[0]
         tx, ty, tw, th = [("s", ("a", S_, n), k_num(0)) for n in "xywh"]
         want = {
             (yv, cmp_("EQ"), (to_poly(ty) + to_poly(H) * to_poly(th) + to_poly(H) * to_poly(hv)).to_s()),
@@ -177,14 +182,14 @@ def r2(ctx: Ctx) -> None:
       "+1/2, GE<->LE); variable bounds from the die; one aspect-ratio equation", floor=3)
 def r3(ctx: Ctx) -> None:
     f = ctx.func(LEGAL, "ModelModule._define_vars")
-    c = canon_function(f, ctx.model)
+    c = canon_function(f, ctx.model, expand=False)
     eqs = _equations(c)
     bounds = [(e[0], e[1], e[2]) for e in eqs if e[3] is not None and has_str(e[3], "bounds_")]
     ctx.require(len(bounds) == 4, f"_define_vars: expected four Bounds equations, found {len(bounds)}")
     dfs = single_defs(c)
     vars_ = [st for st in c if st[0] == "set" and len(st) == 3 and st[2][0] == "c" and contains(st[2][1], "create_variable")]
     ctx.require(len(vars_) == 4, "_define_vars: four variables expected")
-    vx, vy, vw, vh = [deref(st[1], dfs) for st in vars_]
+    vx, vy, vw, vh = [st[1] for st in vars_]
     sxy = Sigma(raw_subst={vx: vy, vy: vx, vw: vh, vh: vw}, attrs={"dw": "dh", "dh": "dw"})
     a = sorted(bounds, key=skey)
     bimg = sorted((tuple(sxy.apply(x) for x in e) for e in bounds), key=skey)
@@ -194,10 +199,10 @@ def r3(ctx: Ctx) -> None:
         ctx.report(f.where, f"closed[bounds xy] {d[0][:160] if d else ''}", "the x and y die-bound equations are not mirror images", lineno=f.node.lineno, differences=d)
     # low/high: x - w/2 >= 0  <->  x + w/2 <= dw
     ctx.site(f.where, "low bound  c - s/2 >= 0  and  high bound  c + s/2 <= die size  for both axes")
-    hlf = [v for v, e in dfs.items() if e[0] == "c" and e[1] == ("g", "ExpressionTree") and len(e[2]) == 2 and e[2][1] == ("k", "num", (1, 2))]
+    hlf = [v for v, e in single_defs(c, False).items() if e[0] == "c" and e[1] == ("g", "ExpressionTree") and len(e[2]) == 2 and e[2][1] == ("k", "num", (1, 2))]
     ok = False
     if len(hlf) == 1:
-        H = deref(hlf[0], dfs)
+        H = hlf[0]
         gk = ("a", ("p", 0), "gekko")
 
         def const(v):
@@ -460,8 +465,9 @@ def r7(ctx: Ctx) -> None:
         if not ok:
             ctx.report(fa.where, f"dispatch-{k[0]}-{'hard' if k[1] else 'soft'}", f"add_equation posts the wrong relation for {k[0]} ({'hard' if k[1] else 'with slack'})", lineno=fa.node.lineno)
     # orientation: LE hard must be not(rhs - lhs < 0) with lhs from parameter 'lhs'
-    raw = ca
-    dfs = single_defs(raw)
+    raw = canon_function(fa, ctx.model, expand=False)
+    ta = table(raw, ("p", 2), ("p", 5))
+    dfs = single_defs(raw, False)
     lhs_v = [v for v, e in dfs.items() if contains(e, ("p", 1)) and contains(e, "get_gekko_expression")]
     rhs_v = [v for v, e in dfs.items() if contains(e, ("p", 3)) and contains(e, "get_gekko_expression")]
     ctx.site(fa.where, "orientation: LE is lhs <= rhs, GE is lhs >= rhs")
